@@ -615,9 +615,27 @@ var c18Extra = [][]string{
 	{"127.0.0.3", "127.0.0.2", "127.0.0.1"},
 }
 
-const c18NStates = 16 + 7
+// c18Raw: file contents in which a key is ABSENT (states 23..): only "enable: true" (nobody listed: nobody is admitted),
+// only the list (the whitelist is off: everyone is admitted), an empty file (off), "enable: false" alone (off)
+var c18Raw = []struct {
+	text   string
+	enable bool
+	lines  []string
+}{
+	{"enable: true\n", true, nil},
+	{"ip_white_list:\n  - 127.0.0.1\n  - 127.0.0.3\n", false, []string{"127.0.0.1", "127.0.0.3"}},
+	{"", false, nil},
+	{"enable: false\n", false, nil},
+	{"# nothing configured\n", false, nil},
+}
+
+const c18NStates = 16 + 7 + 5
 
 func c18Lines(state int) (enable bool, lines []string) {
+	if state >= 16+len(c18Extra) {
+		r := c18Raw[state-16-len(c18Extra)]
+		return r.enable, r.lines
+	}
 	if state >= 16 {
 		return true, c18Extra[state-16]
 	}
@@ -633,6 +651,9 @@ func c18Lines(state int) (enable bool, lines []string) {
 func c18Enabled(state int) bool { e, _ := c18Lines(state); return e }
 
 func c18File(state int) string {
+	if state >= 16+len(c18Extra) {
+		return c18Raw[state-16-len(c18Extra)].text
+	}
 	en, lines := c18Lines(state)
 	t := "enable: false\n"
 	if en {
